@@ -14,6 +14,8 @@ import (
 	"sync"
 	"syscall"
 	"time"
+
+	otp "github.com/ja7ad/otp"
 )
 
 // The REST service under test is the real binary built by the driver from
@@ -208,7 +210,11 @@ func (r httpResult) brief() string {
 	return fmt.Sprintf("%d %s", r.Status, strings.TrimSpace(b))
 }
 
-// documented string -> enum fallbacks, re-implemented here
+// String -> enum conversion as the REST service and the wasm binding must perform it. The canonical spellings are fixed
+// here independently ("6", "8", "9", "10"; "SHA1", "SHA256", "SHA512"). What any OTHER spelling means is not pinned by
+// C18 / C20 — they say "the library's result" / "what the native library returns" — so for those the library's own
+// helpers are the reference (today they fall back to 6 digits / SHA-1; a library that learns to read "sha-256" or " 8"
+// changes what the service must answer, and the service calling the same helper follows).
 func digitsFromSpelling(s string) int {
 	switch s {
 	case "6":
@@ -220,7 +226,7 @@ func digitsFromSpelling(s string) int {
 	case "10":
 		return 10
 	}
-	return 6
+	return otp.DigitsFromStr(s).Int()
 }
 
 func algoFromSpelling(s string) int {
@@ -232,7 +238,7 @@ func algoFromSpelling(s string) int {
 	case "SHA512":
 		return 2
 	}
-	return 0
+	return int(otp.AlgorithmFromStr(s))
 }
 
 var digitSpellings = []string{"6", "8", "9", "10", "6", "8", "10", "7", "06", " 6", "six", "", "10 ", "0", "11"}
